@@ -63,13 +63,18 @@ float32=_mk("float32",32,True,True); float64=_mk("float64",64,True,True)
 def _ai(x):
     """int-like value without forcing realisation of symbolic ints"""
     return x.v if isinstance(x, NPScalar) else x
+class Sparse:
+    """flat storage that does not allocate: unwritten cells read as 0 (so a symbolic shape costs nothing)"""
+    def __init__(self): self.d={}
+    def __getitem__(self, i): return self.d.get(i, 0)
+    def __setitem__(self, i, v): self.d[i]=v
+    def snapshot(self): return dict(self.d)
+
 class SArr:
-    """small dense array, row-major list of python values (ints possibly symbolic)."""
+    """array, row-major, sparse storage of python values (ints possibly symbolic)."""
     def __init__(self, shape, dtype, data=None):
         self.shape=tuple(_ai(s) for s in (shape if isinstance(shape,(tuple,list)) else (shape,))); self.dtype=dtype
-        n=1
-        for s in self.shape: n*=s
-        self.data=data if data is not None else [0]*n
+        self.data=data if data is not None else Sparse()
         self.off=0; self.strides=self._cs(self.shape)
     @staticmethod
     def _cs(shape):
@@ -189,3 +194,190 @@ def _load(filename):
     if str(filename) not in _FILES: raise FileNotFoundError(filename)
     return _FILES[str(filename)]
 numpy.array=_array; numpy.savez=_savez; numpy.load=_load
+
+
+# ================================================================================================ v3 additions
+# (appended for the /verif framework: random, SharedMemory, multiprocessing, helpers to load the real sources)
+import builtins as _bi
+
+
+class _Rng:
+    def integers(self, lo, hi=None):
+        return 12345
+
+    def random(self, n):
+        return SArr((n,), float64, [0.5] * _ai(n))
+
+
+class _Random:
+    @staticmethod
+    def default_rng(seed=None):
+        return _Rng()
+
+    @staticmethod
+    def rand(n):
+        return SArr((n,), float64, [0.25] * _ai(n))
+
+    @staticmethod
+    def seed(s):
+        return None
+
+
+numpy.random = _Random()
+numpy.count_nonzero = lambda a: sum(1 for x in a.tolist() if x != 0)
+numpy.log = lambda x: x
+numpy.exp = lambda x: x
+numpy.interp = lambda x, xp, fp: 0.0
+numpy.float32 = float32
+numba.float64 = float64
+numba.uint16 = uint16
+
+
+# ---- fake shared memory -----------------------------------------------------------------------
+SHM_REGISTRY = {}
+SHM_EVENTS = []   # ("create"|"attach"|"close"|"unlink"|"view", name, ...)
+
+
+class _BufSlice:
+    def __init__(self, shm, start, stop):
+        self.shm, self.start, self.stop = shm, start, stop
+
+
+class _Buf:
+    def __init__(self, shm):
+        self.shm = shm
+
+    def __getitem__(self, idx):
+        if not isinstance(idx, slice):
+            raise TypeError("shim: only slices of shm.buf are supported")
+        start = 0 if idx.start is None else _ai(idx.start)
+        stop = self.shm.size if idx.stop is None else _ai(idx.stop)
+        return _BufSlice(self.shm, start, stop)
+
+
+class SharedMemory:
+    _n = 0
+
+    def __init__(self, name=None, create=False, size=0):
+        if create:
+            SharedMemory._n += 1
+            self.name = name or f"shm{SharedMemory._n}"
+            self.size = _ai(size)
+            if self.size <= 0:
+                raise ValueError("'size' must be a positive number different from zero")
+            self.store = {"regions": {}, "unlinked": False, "size": self.size}
+            SHM_REGISTRY[self.name] = self.store
+            SHM_EVENTS.append(("create", self.name, self.size))
+        else:
+            if name not in SHM_REGISTRY or SHM_REGISTRY[name]["unlinked"]:
+                raise FileNotFoundError(name)
+            self.name = name
+            self.store = SHM_REGISTRY[name]
+            self.size = self.store["size"]
+            SHM_EVENTS.append(("attach", self.name))
+        self.buf = _Buf(self)
+        self.closed = False
+
+    def close(self):
+        self.closed = True
+        SHM_EVENTS.append(("close", self.name, id(self)))
+
+    def unlink(self):
+        self.store["unlinked"] = True
+        SHM_EVENTS.append(("unlink", self.name, id(self)))
+
+
+def _frombuffer3(buf, dtype):
+    if isinstance(buf, (bytes, bytearray)):
+        return SArr((len(buf),), dtype, list(buf))
+    if isinstance(buf, _Buf):
+        buf = _BufSlice(buf.shm, 0, buf.shm.size)
+    if isinstance(buf, _BufSlice):
+        nbytes = buf.stop - buf.start
+        item = dtype.bits // 8
+        SHM_EVENTS.append(("view", buf.shm.name, buf.start, buf.stop, dtype.__name__, id(buf.shm)))
+        if nbytes % item:
+            raise ValueError("buffer size must be a multiple of element size")
+        key = (buf.start, buf.stop, dtype.__name__)
+        reg = buf.shm.store["regions"]
+        if key not in reg:
+            reg[key] = Sparse()
+        return SArr((nbytes // item,), dtype, reg[key])
+    raise TypeError("frombuffer shim")
+
+
+numpy.frombuffer = _frombuffer3
+_shm_mod = _pytypes.ModuleType("multiprocessing.shared_memory")
+_shm_mod.SharedMemory = SharedMemory
+
+
+def _sleep(x):
+    return None
+
+
+class _Gc:
+    @staticmethod
+    def collect():
+        return 0
+
+
+def install_all():
+    """numpy, numba, multiprocessing.shared_memory, time.sleep (no-op) and gc.collect (no-op)"""
+    install()
+    sys.modules["multiprocessing.shared_memory"] = _shm_mod
+
+
+def shim_int(x=0, *a):
+    """int(...) as called by the modules under test: int(np_scalar) must not go through CPython's exact-int check
+    on a symbolic payload.  (Call sites `int(...)` are redirected here by a mechanical AST rewrite at load time; uses of
+    the NAME int, e.g. in isinstance tuples, are untouched.)"""
+    if isinstance(x, NPScalar):
+        return x.v if not x.isfloat else _bi.int(x.v)
+    return _bi.int(x, *a)
+
+
+def index_range(*a):
+    """CPython's range accepts __index__ objects; CrossHair's patched range does not: convert first"""
+    return _bi.range(*[_ai(x) for x in a])
+
+
+def load_sketchnu(repo="/repo", modules=("hashes", "countmin", "heavyhitters", "hyperloglog")):
+    """import the REAL source files of sketchnu from `repo` in a process where numpy/numba/shared memory are the shims"""
+    import importlib.util
+    install_all()
+    pkg = _pytypes.ModuleType("sketchnu")
+    pkg.__path__ = []
+    sys.modules["sketchnu"] = pkg
+    out = {}
+    consts = _pytypes.ModuleType("sketchnu.hll_constants")
+    consts.sub_algorithm_threshold = [10 * (i + 1) for i in range(10)]
+    consts.raw_estimate = SArr((10, 4), float64, [float(i) for i in range(40)])
+    consts.bias_data = SArr((10, 4), float64, [float(100 + i) for i in range(40)])
+    sys.modules["sketchnu.hll_constants"] = consts
+    pkg.hll_constants = consts
+    for name in modules:
+        spec = importlib.util.spec_from_file_location("sketchnu." + name, f"{repo}/sketchnu/{name}.py")
+        m = importlib.util.module_from_spec(spec)
+        sys.modules["sketchnu." + name] = m
+        m.range = index_range
+        m._shim_int = shim_int
+        m.sleep = _sleep
+        import ast as _ast
+
+        class _R(_ast.NodeTransformer):
+            def visit_Call(self, node):
+                self.generic_visit(node)
+                if isinstance(node.func, _ast.Name) and node.func.id == "int":
+                    node.func = _ast.copy_location(_ast.Name(id="_shim_int", ctx=_ast.Load()), node.func)
+                return node
+        src = open(f"{repo}/sketchnu/{name}.py").read()
+        tree = _R().visit(_ast.parse(src, filename=f"{repo}/sketchnu/{name}.py"))
+        _ast.fix_missing_locations(tree)
+        m.__file__ = f"{repo}/sketchnu/{name}.py"
+        exec(compile(tree, m.__file__, "exec"), m.__dict__)
+        m.sleep = _sleep
+        if hasattr(m, "gc"):
+            m.gc = _Gc
+        setattr(pkg, name, m)
+        out[name] = m
+    return out
